@@ -27,7 +27,14 @@ type caseRun struct {
 	Model cmpr.Model
 	Diffs []cmpr.Diff
 	Args  []string
+	Sem   []semViol // violations reported by the executed driver (semantic checks)
+	SemNote string
 }
+
+type semViol struct{ Method, Sig, Detail string }
+
+// streamPost, when set, runs in the parallel section right after the tool ran on a case.
+var streamPost func(cr *caseRun)
 
 // runStream generates n cases, runs the binary and the model on each, and calls each(run).
 // The scratch directories are removed after the callback returns.
@@ -79,6 +86,9 @@ func runStream(seed int64, n int, opt gen.Options, mk func(i int) *gen.Case, eac
 				cr.Impl = cmpr.Impl{Status: res.Status, Stdout: res.Stdout, Stderr: res.Stderr, Panicked: res.Panicked, TimedOut: res.TimedOut}
 				if b, err := os.ReadFile(dst); err == nil {
 					cr.Impl.Output, cr.Impl.HasOut = string(b), true
+				}
+				if streamPost != nil {
+					streamPost(cr)
 				}
 				runs[i-start] = cr
 			}(i)
